@@ -88,7 +88,7 @@ def run(ctx):
                 "enough for at least the tag byte; distinct by (module text, buffer)")
     ctx.trusted = ["Coq 8.16.1 kernel, vm_compute", "harness/view_x.py (IR translator + C++ driver generator)", "harness/cpp_build.py", "g++ -std=c++14 -O0"]
     ctx.audit()
-    ctx.check_theorems("EmbossV.View.Properties_C01", "View/Properties_C01.v", expect_min=10)
+    ctx.check_theorems("EmbossV.View.Properties_C01", "View/Properties_C01.v", expect_min=9)
 
     n_mod = 150 if ctx.thorough() else 16
     n_buf = 60 if ctx.thorough() else 30
